@@ -25,7 +25,7 @@ def run(ctx):
     scope = ctx.G.reachable(roots, within=lambda p: p.startswith("pocket_types::"))
     ctx.functions.update(scope)
     obs = g_obligations(ctx, scope, ("index", "slice", "arith", "cast", "shift", "div", "panic"))
-    ctx.floor("C20.partial-operation-sites", len(obs), 15)
+    ctx.floor("C20.partial-operation-sites", len(obs), 5)
     for o in obs:
         ctx.add(o)
     for name in (T + "add_element_inner", "pocket_types::<Hll8 as AddAssign>::add_assign"):
@@ -39,8 +39,25 @@ def max_update(ctx, s, fn):
     an = ctx.E.an(fn)
     P = ctx.E.prover(fn)
     stores = [(k, L, an.stmt_val[k]) for k, L in an.stmt_loc.items() if L[0] == "index"]
-    ctx.instances["C20.register-stores in %s" % fn.nice.split("::")[-1]] = len(stores)
-    if not stores:
+    zstores = _zip_stores(ctx, s, fn)
+    ctx.instances["C20.register-stores in %s" % fn.nice.split("::")[-1]] = len(stores) + len(zstores)
+    for (b, i), L, v, paired in zstores:
+        # *mine = *theirs under *mine < *theirs, mine/theirs drawn in lock step from the two register arrays
+        ok = False
+        for f in ctx.E.facts(fn, b):
+            if f[0] != "le" or f[1][0] != 1:
+                continue
+            d = dict(f[1][1])
+            cur = [a for a in d if d[a] == 1 and ((a[0] == "phi" and a[2] == L) or a == ("init", L))]
+            new = [a for a in d if d[a] == -1 and a == v]
+            if cur and new and len(d) == 2:
+                ok = True
+        sp = fn.blocks[b]["stmts"][i]["sp"]
+        s.add("S-MAXUPD", fn, "register-max", "r[i]=v if v>r[i]", sp, PROVED if (ok and paired) else VIOLATION,
+              "the register is overwritten only by a strictly larger value of the register at the same position (the two arrays are "
+              "walked in lock step from their start)" if (ok and paired) else
+              "a register store is not guarded by 'new value > stored value' at the same position: merge/add is no longer a max", b)
+    if not stores and not zstores:
         s.add("S-MAXUPD", fn, "register-max", "r[i]=v if v>r[i]", fn.sp, VIOLATION,
               "no per-register store of the form r[i] = v under v > r[i] was found: merge/add is not a register-wise max "
               "(e.g. a word-at-a-time rewrite whose lane arithmetic is not a max for all byte values)")
@@ -60,6 +77,52 @@ def max_update(ctx, s, fn):
         s.add("S-MAXUPD", fn, "register-max", "r[i]=v if v>r[i]", sp, PROVED if ok else VIOLATION,
               "the register is overwritten only by a strictly larger value for the same index (pointwise max)" if ok else
               "a register store is not guarded by 'new value > stored value' on the same index: merge/add is no longer a max", b)
+
+
+def _zip_stores(ctx, s, fn):
+    """stores through the first component of the item of zip(a.iter_mut(), b.iter()) whose value is a load through the
+    second component; paired = both iterators start at the beginning of a whole array/slice (no skip, rev, step...)"""
+    an = ctx.E.an(fn)
+    out = []
+    for k, L in an.stmt_loc.items():
+        if L[0] != "deref":
+            continue
+        nx = find_values(L, lambda y: y[0] == "call" and "zip" in y[1] and y[1].endswith("::next"))
+        if not nx:
+            continue
+        v = an.stmt_val[k]
+        if not find_values(v, lambda y: y == nx[0]):
+            continue
+        # components .0 (destination) and .1 (source)
+        def comp(x):
+            sel = [p[2][1] for p in find_values(x, lambda y: y[0] == "proj" and y[2][0] == "f" and y[1][0] == "proj" and y[1][2][0] == "f")]
+            return sel[0] if sel else None
+        if comp(L) != 0 or comp(v) != 1:
+            continue
+        site = nx[0][3]
+        info = an.term.get(site[1]) if site else None
+        paired = False
+        if info is not None:
+            org = info["pre"][0] if info["pre"] and info["pre"][0] is not None else info["args"][0]
+            zs = find_values(org, lambda y: y[0] == "call" and y[1].endswith("::zip") and len(y[2]) == 2)
+            if not zs:
+                for st in an.stmt_val.values():
+                    pass
+            for z in zs:
+                a0, a1 = z[2]
+                m = a0[0] == "call" and a0[1].endswith("::iter_mut") and len(a0[2]) == 1
+                r = a1[0] == "call" and a1[1].rsplit("::", 1)[-1] in ("iter", "into_iter") and len(a1[2]) == 1
+                paired = paired or (m and r)
+            if not zs:
+                # the zip value reaches next() through the loop's iterator variable: look for the one zip call
+                zc = [(b, i) for b, i in an.calls() if (i["base"] or i["callee"] or "").endswith("Iterator::zip")]
+                if len(zc) == 1:
+                    a0, a1 = zc[0][1]["args"]
+                    m = a0[0] == "call" and a0[1].endswith("::iter_mut")
+                    r = a1[0] == "call" and a1[1].rsplit("::", 1)[-1] in ("iter", "into_iter")
+                    paired = m and r
+        out.append((k, L, v, paired))
+    return out
 
 
 def hex_tables(ctx, s):
